@@ -55,22 +55,39 @@ def main():
         ok = clean_pass and suite_pass and demo_fails
         print('confirm: clean demo pass=%s, suite with change pass=%s, demo with change fails=%s' % (clean_pass, suite_pass, demo_fails))
     # our check against the change
-    rc, out = sh('git -C /repo status --short | grep -v _build')
-    if out.strip():
-        print('/repo is not clean, refusing:', out)
-        return 2
-    rc, out = sh('git -C /repo apply %s' % patch)
-    if rc != 0:
-        rc, out = sh('git -C /repo apply --3way %s' % patch)
-        if rc != 0:
-            sh('git -C /repo checkout -f -- . ; git -C /repo reset -q --hard HEAD')  # a failed 3-way apply leaves conflict markers
-            print('patch does not apply to /repo HEAD (rebase it by hand, keep the original as patch.original.diff):', out)
-            return 2
     t0 = time.time()
-    try:
-        rc, out = sh('VERIF_EVIDENCE_DIR=%s/build/seed-evidence ./check %s %s' % (VERIF, pid, tier), cwd=VERIF, timeout=7200)
-    finally:
-        sh('git -C /repo checkout -- . ; git -C /repo reset -q')
+    if '--scratch' in sys.argv:
+        # run against a scratch worktree of /repo (RKCOMMON_REPO) so that /repo stays untouched while other checks run
+        sw = '/tmp/seedrepo_%s_%s' % (pid, label)
+        sh('git -C /repo worktree remove --force %s; rm -rf %s' % (sw, sw))
+        rc, out = sh('git -C /repo worktree add --detach %s HEAD' % sw)
+        rc, out = sh('git apply %s' % patch, cwd=sw)
+        if rc != 0:
+            sh('git -C /repo worktree remove --force %s' % sw)
+            print('patch does not apply to /repo HEAD:', out)
+            return 2
+        import hashlib
+        alt = os.path.join(VERIF, 'build', 'alt-' + hashlib.sha1(sw.encode()).hexdigest()[:8])
+        try:
+            rc, out = sh('RKCOMMON_REPO=%s ./check %s %s' % (sw, pid, tier), cwd=VERIF, timeout=7200)
+        finally:
+            sh('git -C /repo worktree remove --force %s; rm -rf %s %s' % (sw, sw, alt))
+    else:
+        rc, out = sh('git -C /repo status --short | grep -v _build')
+        if out.strip():
+            print('/repo is not clean, refusing:', out)
+            return 2
+        rc, out = sh('git -C /repo apply %s' % patch)
+        if rc != 0:
+            rc, out = sh('git -C /repo apply --3way %s' % patch)
+            if rc != 0:
+                sh('git -C /repo checkout -f -- . ; git -C /repo reset -q --hard HEAD')  # a failed 3-way apply leaves conflict markers
+                print('patch does not apply to /repo HEAD (rebase it by hand, keep the original as patch.original.diff):', out)
+                return 2
+        try:
+            rc, out = sh('VERIF_EVIDENCE_DIR=%s/build/seed-evidence ./check %s %s' % (VERIF, pid, tier), cwd=VERIF, timeout=7200)
+        finally:
+            sh('git -C /repo checkout -- . ; git -C /repo reset -q')
     lines = [l for l in out.splitlines() if l.startswith(('VIOLATION', '---', 'OK', 'BUILD-ERROR', 'CHECK-ERROR', 'VACUOUS', 'NOTE', 'KNOWN'))]
     verdict = 'CAUGHT' if (rc == 1 and any(l.startswith('VIOLATION property=') for l in lines)) else ('MISSED' if rc == 0 else 'BROKEN')
     meta['our_check'] = dict(cmd='./check %s %s' % (pid, tier), rc=rc, verdict=verdict, wall_s=round(time.time() - t0, 1), lines=lines[:8])
